@@ -126,7 +126,9 @@ func ExecFinal(sys conc.System, ops []*Op) []string {
 func GenConc(r *core.Rng, store string) *ConcProgram {
 	p := &ConcProgram{Store: store}
 	p.Setup = append(p.Setup, &Op{Kind: "mkbucket", B: concBucket})
-	content := func() []byte { return core.Pick(r, [][]byte{[]byte("x"), []byte("hello"), {}, {0, 1, 2}, []byte("yy")}) }
+	content := func() []byte {
+		return core.Pick(r, [][]byte{[]byte("x"), []byte("hello"), {}, {0, 1, 2}, []byte("yy")})
+	}
 	meta := func() Meta {
 		m := Meta{CT: core.Pick(r, []string{"", "text/plain", "application/x-v"})}
 		if r.Chance(1, 3) {
@@ -162,6 +164,26 @@ func GenConc(r *core.Rng, store string) *ConcProgram {
 		}
 	}
 	n := 2 + r.Weighted([]int{60, 40})
+	if r.Chance(1, 2) {
+		// contest: writers of different kinds on one name, all carrying the same condition —
+		// exactly one may succeed
+		nm := name()
+		c := core.Pick(r, []Conds{{"cur"}, {"zero"}, {"cur"}, {"", "", "cur"}})
+		for i := 0; i < n; i++ {
+			switch r.Weighted([]int{35, 30, 15, 20}) {
+			case 0:
+				p.Ops = append(p.Ops, &Op{Kind: "upload", B: concBucket, N: nm, Content: append(content(), byte('A'+i)), Meta: meta(), Declared: "none", Proto: "multipart", Conds: c})
+			case 1:
+				p.Ops = append(p.Ops, &Op{Kind: "compose", B: concBucket, N: nm, Srcs: []Src{{Name: concNames[1]}}, HasMeta: true, Meta: meta(), Conds: c})
+			case 2:
+				p.Ops = append(p.Ops, &Op{Kind: "delete", B: concBucket, N: nm, Conds: c})
+			default:
+				ct := "text/c" + string(rune('0'+i))
+				p.Ops = append(p.Ops, &Op{Kind: "patch", B: concBucket, N: nm, PatchCT: &ct, Conds: c})
+			}
+		}
+		return p
+	}
 	for i := 0; i < n; i++ {
 		switch r.Weighted([]int{30, 20, 12, 10, 8, 10, 10}) {
 		case 0:
